@@ -72,9 +72,13 @@ def is_quantum_channel(
     """
     # If the variable `phi` is provided as a list, we assume this is a list
     # of Kraus operators.
+    dim = None
     if isinstance(phi, list):
+        # Remember the input and output dimensions: they cannot be recovered from the Choi matrix when they differ.
+        first_op = phi[0] if isinstance(phi[0], np.ndarray) else phi[0][0]
+        dim = [first_op.shape[1], first_op.shape[0]]
         phi = kraus_to_choi(phi)
 
     # A valid quantum channel is a superoperator that is both completely
     # positive and trace-preserving.
-    return is_completely_positive(phi, rtol, atol) and is_trace_preserving(phi, rtol, atol)
+    return is_completely_positive(phi, rtol, atol) and is_trace_preserving(phi, rtol, atol, dim=dim)
